@@ -20,7 +20,7 @@ UNDECIDED = ['TLS library behaviour', 'server behaviour at run time']
 ASSUMPTIONS = []
 CONFIGS = ['default', 'rustls']
 QUICK_CONFIGS = ['default', 'rustls']      # the two TLS back ends are sibling implementations of the same clauses, selected by cfg: a change can be visible in only one of them
-SHARED = [('C04', ('L7.',), 'W6.transport')]      # what is written to a ConnType::Tls goes to the TLS stream, not to another variant's socket, method by method
+SHARED = [('C04', ('L7.',), 'W6.transport'), ('C18', ('U6.',), 'W9.request-survives-later-builder-calls')]      # what is written to a ConnType::Tls goes to the TLS stream, not to another variant's socket, method by method; W9 "under all combinations of scheme, StartTLS and verification settings": set_starttls(true) / the verification setting / the caller's connector are still what connection setup sees after any later builder call - a builder method that rebuilds the settings from defaults turns a requested StartTLS off without a word
 
 NT = 'ldap3::conn::LdapConnAsync::new_tcp'
 
